@@ -183,6 +183,7 @@ package main
 //@   requires compressed-input-is-verified-before-lines-are-written {C08}: !unverified[r]
 //@   requires: !wfailOn[outWriter] && !scanErr
 //@   requires key-in-use-is-the-persisted-one {C11}: implies(shouldEncrypt && encryptionKey != nil, havePersisted && persistedKey == mkbytes(elems(encryptionKey), off(encryptionKey), len(encryptionKey)))
+//@   sets processedN := processedN + 1
 //@   sets envOps := envOps + 1
 //@   ensures no-silent-failure {C08}: implies(result == nil, !wfailOn[outWriter] && !scanErr)
 //@   ensures only-this-writer: wfailOn == store(old(wfailOn), outWriter, wfailOn[outWriter])
@@ -366,6 +367,7 @@ package main
 //@   loop 1 invariant new-keyfile {C11}: implies(encOn && old(fsKind)[kf] == 0, fsKind[kf] == 1 && fsPerm[kf] == 384 && havePersisted && fsData[kf] == sbytes(b64enc(persistedKey)) && blen(persistedKey) == 64)
 //@   loop 1 invariant key {C11}: implies(shouldEncrypt && encryptionKey != nil, havePersisted && persistedKey == mkbytes(elems(encryptionKey), off(encryptionKey), len(encryptionKey)))
 //@   loop 1 invariant cfg {C01,C05}: redactedString == old(*replacement) && G.redactNumbers == old(*redactNumbers) && G.redactBooleans == old(*redactBooleans) && G.redactIPs == old(*redactIPs) && G.redactNamespaces == old(*redactNamespaces) && G.eagerRedactionPaths == old(*eagerRedactionPaths) && (G.redactedFieldsRegexp == nil) == (old(*redactedFieldsRegexp) == "")
+//@   ensures a-file-or-stream-job-that-succeeds-has-processed-its-input {C06,C08,C01}: implies(!atlas, processedN == 1)
 //@   exit_requires nonzero {C18,C08}: code != 0
 //@   exit_requires sound {C18}: implies(!WD, effects == 0)
 //@   exit_requires message {C18}: implies(!WD, stderrN > 0)
